@@ -22,4 +22,6 @@ def run(rep, fb, tier):
     _ly.rule_growth_progress(rep, fb)
     from ..rules import lints as _lv
     _lv.rule_call_roles(rep, fb)
+    from ..rules import lints2 as _l2
+    _l2.rule_union_builder_index(rep, fb)
     rep.units = fb.units
